@@ -169,7 +169,7 @@ class RustFile:
         # doc comments are masked; src[start] may be '/' of '///' — fine, we keep them (X1 strips)
         return start
 
-    def find_impl(self, header: str, lo=0, hi=None):
+    def find_impl(self, header: str, lo=0, hi=None, nth=0):
         """find `impl<..> HEADER {`; header compared whitespace-insensitively against the text between
         `impl` (and its generics) and the opening brace (where-clauses included)."""
         hi = len(self.mask) if hi is None else hi
@@ -196,6 +196,9 @@ class RustFile:
                             hn2 = hn[k + 1:]
                             break
             if hn == want or hn2 == want:
+                if nth > 0:
+                    nth -= 1
+                    continue
                 return a, b, match_brace(self.mask, b)
         raise LostAnchor(f"impl {header} not found in {self.path}")
 
@@ -210,6 +213,18 @@ class RustFile:
         raise LostAnchor(f"mod {name} not found in {self.path}")
 
     def find_item(self, path: str):
+        """like _find_item, but when several `impl HEADER` blocks exist the item is looked for in each"""
+        last = None
+        for nth in range(0, 8):
+            try:
+                return self._find_item(path, nth)
+            except LostAnchor as e:
+                last = e
+                if "impl " not in path or (str(e).startswith("impl ") and " :: " not in str(e).split(" not found")[0]):
+                    break
+        raise last
+
+    def _find_item(self, path: str, impl_nth: int = 0):
         """path grammar:  [impl HEADER ::] [mod NAME ::] KIND NAME
         KIND in fn|const|static|struct|enum|type|trait.  Returns dict(start,end,kw,body_open,body_close,sig_end)."""
         lo, hi = 0, len(self.mask)
@@ -217,7 +232,7 @@ class RustFile:
         inner_depth = 0
         for p in parts[:-1]:
             if p.startswith("impl "):
-                a, b, c = self.find_impl(p[5:], lo, hi)
+                a, b, c = self.find_impl(p[5:], lo, hi, impl_nth)
             elif p.startswith("mod "):
                 a, b, c = self.find_mod(p[4:], lo, hi)
             elif p.startswith("trait "):
